@@ -18,7 +18,13 @@ remove(axis=..)) - each on its own copy of the state.  Oracles on every transiti
  (f) the state reached functionally equals the state reached by replaying the whole history in place on ONE
      fresh live object (mutating forms, no copies)
 A transition on which some form violates an oracle is recorded; the successor is taken from a form that
-satisfied the reference (if none did, the successor is pruned and not expanded).
+satisfied the reference (if none did, the successor is pruned and not expanded).  Oracle (f) is applied as long as
+the axis-specific in-place form of every step of the history passed (otherwise it would repeat that violation).
+
+Signatures are "<class that implements the method>.<method>:<failure kind>"; a generic form that fails exactly as
+the axis-specific form it dispatches to is counted under the latter; an operation along one axis that drops the
+labels of another axis is attributed to the class family that should forward them; size symptoms (wrong result
+shape, the library's own shape validators, numpy broadcasting / index errors) are one kind ":shape".
 """
 from __future__ import annotations
 import hashlib, importlib, itertools, math
@@ -47,7 +53,10 @@ ASSUME = ["numpy.take / delete / insert / append / concatenate / lexsort / uniqu
           "mc/compat.py restores removed numpy names only",
           "operands have the same optional label arrays as the matrix they are joined to (documented precondition); "
           "axes never become empty; boolean index masks are not generated (not documented for take/delete/insert)",
-          "DenseBreedingValueMatrix is compared on unscale() (rel 1e-9) and labels only; location/scale are C15's"]
+          "DenseBreedingValueMatrix is compared on unscale() (rel 1e-9) and labels only; location/scale are C15's: value "
+          "mismatches of inherited TAXA-axis methods (concat_taxa, append_taxa, incorp_taxa) are only counted "
+          "(counter deferred-to-C15:*) because they are recorded under property C15; trait-axis ones are reported here",
+          "the harness' own object builder / cloner uses only the public constructors and metadata setters"]
 
 # ------------------------------------------------------------------------------------------------------------------
 # class descriptor table
@@ -866,7 +875,7 @@ def genotyping(ctx, D, node, history):
 
 
 # ------------------------------------------------------------------------------------------------------------------
-def explore_shard(ctx, D, inits, depth, nmax, part=None, do_live=True, gt=False):
+def explore_shard(ctx, D, inits, depth, nmax, part=None, do_live=True, gt=False, sample=False):
     flagged = set()
 
     def initial():
@@ -908,9 +917,12 @@ def explore_shard(ctx, D, inits, depth, nmax, part=None, do_live=True, gt=False)
                 if succ.key != node.key:
                     ctx.nontriv(hashlib.blake2b(node.key + repr(sorted(op.items())).encode(), digest_size=8).digest())
                     ctx.count(f"changes:{D.name}:{opname(op)}")
-                if ctx.evaluations % 5003 == 1:
+                if sample and not ctx.samples and len(h) == depth - 1 and succ.key != node.key:
                     ctx.sample({"cls": D.name, "init": node.init, "history": list(h), "op": op,
-                                "result_shape": list(succ.obj.mat.shape)})
+                                "result_shape": list(succ.obj.mat.shape),
+                                "result_labels": {f: (None if getattr(succ.obj, f) is None else getattr(succ.obj, f).tolist())
+                                                  for f in D.fields[:3]},
+                                "result_grouped": {k: bool(succ.ref.grouped[k]) for k in D.gkinds}})
             yield (op, succ)
 
     nst, ntr, maxd = bfs(initial(), successors, key=lambda n: n.key, max_depth=depth, on_state=on_state)
@@ -1020,13 +1032,24 @@ def shards(tier, seed):
     return [s for s in plan(tier) if only is None or s[0] in only]
 
 
+SAMPLE_CLASSES = ("DenseGenotypeMatrix", "DensePhasedGenotypeMatrix", "DenseBreedingValueMatrix",
+                  "DenseMolecularCoancestryMatrix", "DenseTwoWayDHAdditiveGeneticVarianceMatrix", "DenseTaxaMatrix")
+
+
 def run_shard(spec, ctx):
     name, inits, depth, nmax, part, live, gt = spec
     D = Desc.get(name, ctx.seed)
-    ctx.bounds.update({"max_axis_length": nmax, f"depth:{'deep' if part else 'wide'}:{name}": depth,
+    ctx.bounds.update({"max_axis_length": nmax, f"explored-to-depth-{depth}:{name}": True,
                        "operand_pool": "A (1 new entity, ungrouped), B (2 new entities, grouped)",
-                       "index_arguments": "all lists/permutations/slices for axis length <= 3, covering family above"})
-    explore_shard(ctx, D, inits, depth, nmax, part=tuple(part) if part else None, do_live=live, gt=gt)
+                       "index_arguments": "all lists/permutations/slices for axis length <= 3, covering family above",
+                       "plan": " ".join(plan.__doc__.split())})
+    # one recorded sample per class in SAMPLE_CLASSES: the first state-changing transition at full depth of the
+    # deepest all-grouped shard
+    deepest = max(s[2] for s in plan(ctx.tier) if s[0] == name)
+    sample = (name in SAMPLE_CLASSES and depth == deepest and (part is None or part[0] == 0)
+              and len(inits) >= 1 and inits[0]["profile"] == "full" and sorted(inits[0]["grouped"]) == sorted(D.gkinds)
+              and inits[0]["shape"] == list(_s(D, 2)))
+    explore_shard(ctx, D, inits, depth, nmax, part=tuple(part) if part else None, do_live=live, gt=gt, sample=sample)
     for i in inits:
         ctx.flag(f"profile:{name}:{i['profile']}")
 
